@@ -85,6 +85,69 @@ def exhaustive(tier):
                     for i in (range(-3, 4) if op in ("insert", "setitem") else (0,)):
                         yield {"mode": "reoffer", "configtype": configtype, "n": n, "j": j, "what": op, "i": i}
 
+    # a MAP offered as one element of a list of configurations whose items carry a cross-field rule: every held state x
+    # every map over a small grid (keys present / absent, good / conflicting / wrongly typed values) x operation x index
+    for configtype in (False, True):
+        for held in ((0, 10), (50, 60), (5, 5), (None, None)):
+            for op in ("append", "insert", "setitem", "extend1", "iadd1", "setslice1"):
+                for i in ((-2, -1, 0, 1) if op in ("insert", "setitem", "setslice1") else (0,)):
+                    yield {"mode": "item-map", "configtype": configtype, "held": held, "what": op, "i": i}
+
+
+def _item_map_case(case, R):
+    cc = sandbox._state["cc"]
+    R.label("item-map")
+    item = cc.Schema()
+    item.lo = cc.IntField(default=0)
+    item.hi = cc.IntField(default=10)
+    item.tag = cc.StringField()
+
+    @cc.validator(item)
+    def lo_le_hi(cfg):
+        if cfg.lo is not None and cfg.hi is not None and cfg.lo > cfg.hi:
+            raise ValueError("lo must not exceed hi")
+    schema = cc.Schema()
+    schema.items = cc.ListField(cc.make_type(item, "MapItem", module=__name__) if case["configtype"] else item)
+    schema.other = cc.IntField(default=1)
+    what, i = case["what"], case["i"]
+    absent = object()
+    for lo in (absent, 1, 70, "bad"):
+        for hi in (absent, 3, 10, "bad"):
+            for tag in (absent, "t"):
+                offered = {k: v for k, v in (("lo", lo), ("hi", hi), ("tag", tag)) if v is not absent}
+                cfg = schema()
+                cfg.items = [{"tag": "first"}, {"tag": "second", "lo": 2, "hi": 4}]
+                if case["held"][0] is not None:
+                    cfg.items[0].lo, cfg.items[0].hi = 0, 1000
+                    cfg.items[0].hi, cfg.items[0].lo = case["held"][1], case["held"][0]
+                lst = cfg.items
+                before = worlds.snapshot(cfg, cc, with_ids=True)
+                try:
+                    if what == "append":
+                        lst.append(dict(offered))
+                    elif what == "insert":
+                        lst.insert(i, dict(offered))
+                    elif what == "setitem":
+                        lst[i] = dict(offered)
+                    elif what == "setslice1":
+                        lst[i:i + 1 if i != -1 else None] = [dict(offered)]
+                    elif what == "extend1":
+                        lst.extend([dict(offered)])
+                    else:
+                        lst += [dict(offered)]
+                    raised = None
+                except Exception as exc:
+                    raised = exc
+                if raised is None:
+                    R.label("item-map:accepted")
+                    continue
+                R.label("judged:item-map")
+                R.nontrivial = True
+                after = worlds.snapshot(cfg, cc, with_ids=True)
+                R.check(before == after, "unchanged", "item-map:" + what,
+                        lambda: "%s(%r) of the map %r on a list whose first item holds lo, hi = %r was rejected (%r) and changed the list: %s" % (
+                            what, i, offered, case["held"], raised, worlds.diff(before, after)))
+
 
 def _with_includes(spec):
     """Optionally add include fields at the root and in one nested schema."""
@@ -352,6 +415,8 @@ def run_case(case, R):
         return _reoffer_case(case, R)
     if case.get("mode") == "assign-object":
         return _assign_object_case(case, R)
+    if case.get("mode") == "item-map":
+        return _item_map_case(case, R)
     cc = sandbox._state["cc"]
     spec = case["spec"]
     with sandbox.CaseDir() as d:
